@@ -28,8 +28,7 @@ EmptyStore ==
     rtIdx |-> <<>>,   \* request id -> latest refresh-token id  (RefreshTokenRequestIDs)
     dev   |-> <<>>,   \* id -> [client, rid, req, scopes, aud, exp, ustate, present, inval]
     doidc |-> {},     \* device ids that have an OpenID Connect session row
-    par   |-> <<>>,   \* id -> [client, exp, present, rtype, scopes, aud, redir, pkce]
-    orph  |-> [code |-> 0, at |-> 0, oidc |-> 0, pkce |-> 0] ]  \* rows nobody holds a credential for
+    par   |-> <<>> ]  \* id -> [client, exp, present, rtype, req, aud, redirSent]
 
 (* ---- authorize codes ------------------------------------------------- *)
 CreateAuthorizeCodeSession(S, k, row) == [S EXCEPT !.code = Put(@, k, row)]
